@@ -27,6 +27,7 @@ import (
 	"strconv"
 	"strings"
 	"sync"
+	"sync/atomic"
 	"time"
 
 	"github.com/IrineSistiana/mosproxy/app/router"
@@ -158,6 +159,12 @@ func (u *c13Upstream) reset(hold bool, delay time.Duration) {
 	u.hold, u.delay = hold, delay
 	u.arrived = nil
 	u.held = map[int]chan int{}
+	u.mu.Unlock()
+}
+
+func (u *c13Upstream) setHold(hold bool) {
+	u.mu.Lock()
+	u.hold = hold
 	u.mu.Unlock()
 }
 
@@ -367,7 +374,7 @@ var c13 struct {
 	up *c13Upstream
 }
 
-func c13StartRouter(servers []router.ServerConfig) (*router.VerifRouter, *c13Upstream) {
+func c13TryStartRouter(servers []router.ServerConfig) (*router.VerifRouter, *c13Upstream, error) {
 	mlog.SetLvl(zerolog.Disabled)
 	cfg := &router.Config{
 		Servers:   servers,
@@ -376,11 +383,20 @@ func c13StartRouter(servers []router.ServerConfig) (*router.VerifRouter, *c13Ups
 	}
 	vr, err := router.VerifRun(cfg)
 	if err != nil {
-		panic(err)
+		return nil, nil, err
 	}
 	up := newC13Upstream()
 	if !vr.SetUpstream("up", up) {
-		panic("SetUpstream failed")
+		vr.Close()
+		return nil, nil, errors.New("SetUpstream failed")
+	}
+	return vr, up, nil
+}
+
+func c13StartRouter(servers []router.ServerConfig) (*router.VerifRouter, *c13Upstream) {
+	vr, up, err := c13TryStartRouter(servers)
+	if err != nil {
+		panic(err)
 	}
 	return vr, up
 }
@@ -456,7 +472,22 @@ func c13FmtInts(ids []int) string {
 	return strings.Join(s, ",")
 }
 
-const c13Wait = 3 * time.Second
+// c13WaitD is how long a step may take before it is reported as a stall. It never elapses on a correct
+// implementation; after a few stalls (a broken implementation) the remaining cases wait much less so that
+// the run still ends in reasonable time.
+var c13Stalls int32
+
+func c13WaitD() time.Duration {
+	switch n := atomic.LoadInt32(&c13Stalls); {
+	case n >= 20:
+		return 2 * time.Millisecond
+	case n >= 3:
+		return 40 * time.Millisecond
+	}
+	return 3 * time.Second
+}
+
+func c13Stalled() { atomic.AddInt32(&c13Stalls, 1) }
 
 func c13GnetRun(cs string) string {
 	m := kv(cs)
@@ -478,7 +509,9 @@ func c13GnetRun(cs string) string {
 	relOne := func(id int) {
 		before := c.asyncCount()
 		up.release(id)
-		if !c.waitAsync(before+1, c13Wait) {
+		if stall {
+			c.waitAsync(before+1, time.Millisecond)
+		} else if !c.waitAsync(before+1, c13WaitD()) {
 			stall = true
 		}
 		c.runCallbacks()
@@ -505,7 +538,7 @@ func c13GnetRun(cs string) string {
 			mode, bl, rn, il, conc := c.state()
 			if det {
 				// every accepted query must reach the upstream before the next step
-				if !up.waitHeld(conc, c13Wait) {
+				if !stall && !up.waitHeld(conc, c13WaitD()) {
 					stall = true
 				}
 			} else {
@@ -532,7 +565,7 @@ func c13GnetRun(cs string) string {
 			relOne(id)
 		}
 	} else {
-		deadline := time.Now().Add(c13Wait)
+		deadline := time.Now().Add(c13WaitD())
 		spins := 0
 		for {
 			c.runCallbacks()
@@ -563,6 +596,7 @@ func c13GnetRun(cs string) string {
 	}
 	res := fmt.Sprintf("w=%s up=%s closed=%s st=%s sh=%d", c13FmtW(ws, !det), c13FmtInts(up.arrivedSorted()), b2s(closed), st, hash)
 	if stall {
+		c13Stalled()
 		res += " stall=1"
 	}
 	return res
@@ -723,7 +757,7 @@ func c13GnetGen(r *rand.Rand, thorough bool, emit func(c, cat string)) {
 	fs2 := []c13frame{{17, true}, {17, true}}
 	nb := 11
 	if thorough {
-		nb = 16
+		nb = 15
 	}
 	for from := range []int{0, 1} {
 		base := 0
